@@ -51,7 +51,16 @@ def run(rep, tier, seed):
             rep.exhaustive = bool(ex)
     finally:
         chk.close()
+    # direction B: the repository's own recorder tests under the guarded hooks, validated by RecorderTrace.tla
+    from .. import suitetrace
+    events, tail = suitetrace.run_tests(['tests/test_tape_recorder.py', 'tests/studio/test_studio.py'])
+    rep.extra['suite_run'] = tail
+    suitetrace.validate(rep, 'tests/test_tape_recorder.py + tests/studio/test_studio.py', 'RecorderTrace',
+                        suitetrace.recorder_traces(events))
 
 
 def replay(rep, body):
+    if body.get('replay', {}).get('kind') == 'suite-trace':
+        from .. import suitetrace
+        return suitetrace.replay_trace(body)
     return replay_file(rep, body, CATS)
